@@ -17,6 +17,7 @@ import (
 //	op 3  Normal Rand:   Mu, Sigma, Seed, N
 //	op 4  TDist grid:    V, Xs
 //	op 5  DeltaDist:     T (=Mu), Xs = points, Ys = probabilities
+//	op 6  monotonicity scan of a CDF (hb_scan.go): Fn, Mu/Sigma or V, [Lo,Hi] in N cells
 type c05Case struct {
 	Op    int   `json:"op"`
 	Mu    F64   `json:"mu,omitempty"`
@@ -26,6 +27,9 @@ type c05Case struct {
 	N     int   `json:"n,omitempty"`
 	Xs    []F64 `json:"xs,omitempty"`
 	Ys    []F64 `json:"ys,omitempty"`
+	Fn    int   `json:"fn,omitempty"` // op 6: 1 NormalDist.CDF, 2 TDist.CDF
+	Lo    F64   `json:"lo,omitempty"` // op 6: scan range and number of cells (N)
+	Hi    F64   `json:"hi,omitempty"`
 }
 
 // PDF/CDF grid with Gauss-Legendre consistency between neighbours
@@ -115,6 +119,33 @@ func c05Run(raw []byte) (*Line, error) {
 			y := float64(yf)
 			l.F(y).F(d.InvCDF(y))
 		}
+	case 6:
+		lo, hi := float64(c.Lo), float64(c.Hi)
+		if !finite(lo) || !finite(hi) || !(lo < hi) || c.N < 8 || c.N > 2000000 {
+			return nil, fmt.Errorf("bad scan range")
+		}
+		var f func(float64) float64
+		var p1, p2 float64
+		switch c.Fn {
+		case 1:
+			if !finite(mu) || !finite(sigma) || !(sigma > 0) {
+				return nil, fmt.Errorf("need finite mu and sigma > 0")
+			}
+			f, p1, p2 = stats.NormalDist{Mu: mu, Sigma: sigma}.CDF, mu, sigma
+		case 2:
+			v := float64(c.V)
+			if !finite(v) || !(v > 0) {
+				return nil, fmt.Errorf("need V > 0")
+			}
+			f, p1, p2 = stats.TDist{V: v}.CDF, v, 0
+		default:
+			return nil, fmt.Errorf("bad fn")
+		}
+		pairs := monoScan(f, lo, hi, c.N, 1, 4)
+		l.I(c.Fn).F(p1).F(p2).F(lo).F(hi).I(c.N).I(len(pairs))
+		for _, p := range pairs {
+			l.F(p.Lo).F(p.Hi).F(p.FLo).F(p.FHi)
+		}
 	default:
 		return nil, fmt.Errorf("bad op")
 	}
@@ -196,9 +227,31 @@ func c05Probabilities(rng *rand.Rand) []F64 {
 
 var c05T = []float64{0, 1.0 / 1024, 0.125, 0.25, 0.5, 0.75, 1, 1.5, 2, 2.5, 3, 4, 5, 6, 8, 12, 16, 24, 40, 64, 100, 1000, 1e6}
 
-func c05TGrid(rng *rand.Rand, extra bool) []F64 {
+// TDist.CDF(x) = 1 - BetaInc(V/(V+x*x), V/2, 1/2)/2: BetaInc changes from its reflected to its
+// direct continued fraction where V/(V+x*x) = (a+1)/(a+b+2) with a = V/2, b = 1/2, i.e. at
+// x*x = 3V/(V+2).  The grid brackets that abscissa (dyadic neighbours and the float itself).
+func c05TSwitch(v float64) []float64 {
+	s := math.Sqrt(3 * v / (v + 2))
+	return []float64{s, math.Nextafter(s, 0), math.Nextafter(s, 2), math.Floor(s*4096) / 4096, math.Ceil(s*4096) / 4096}
+}
+
+// TDist.CDF(x) goes through V/(V+x*x), which is within an ulp of 1 when x*x is below about 1e-16 V:
+// the abscissae s, 16 s, 256 s with s = 2^-27 sqrt(V) are where the absolute error that this
+// cancellation can cause, min(pdf(0) x, 1e-17 V / x), is largest.
+func c05TTiny(v float64) []float64 {
+	s := math.Ldexp(math.Sqrt(v), -27)
+	return []float64{s, 16 * s, 256 * s}
+}
+
+func c05TGrid(rng *rand.Rand, v float64, extra bool) []F64 {
 	var xs []float64
 	for _, t := range c05T {
+		xs = append(xs, t, -t)
+	}
+	for _, t := range c05TTiny(v) {
+		xs = append(xs, t, -t)
+	}
+	for _, t := range c05TSwitch(v) {
 		xs = append(xs, t, -t)
 	}
 	for i := 0; i < 6; i++ {
@@ -239,8 +292,8 @@ func c05Gen(tier string, rng *rand.Rand, emit func(interface{})) {
 		emit(c05Case{Op: 3, Mu: F64(mu), Sigma: F64(sigma), Seed: rng.Int63(), N: 50})
 	}
 	// ---- TDist: V in [0.1, 1e4]
-	for _, v := range []float64{0.1, 0.5, 1, 1.5, 2, 2.5, 3, 4, 5, 7.5, 10, 30, 31, 100, 200, 1000, 1e4} {
-		emit(c05Case{Op: 4, V: F64(v), Xs: c05TGrid(rng, true)})
+	for _, v := range []float64{0.1, math.Nextafter(0.1, 1), 0.3, 0.5, 0.75, math.Nextafter(1, 0), 1, 1.5, 2, 2.5, 3, 4, 5, 7.5, 10, 30, 31, 100, 200, 200.5, 1000, 9999.5, 1e4} {
+		emit(c05Case{Op: 4, V: F64(v), Xs: c05TGrid(rng, v, true)})
 	}
 	for it := 0; it < 60*mul; it++ {
 		var v float64
@@ -252,7 +305,36 @@ func c05Gen(tier string, rng *rand.Rand, emit func(interface{})) {
 		default:
 			v = math.Exp(math.Log(0.1) + rng.Float64()*math.Log(1e5))
 		}
-		emit(c05Case{Op: 4, V: F64(v), Xs: c05TGrid(rng, it%5 == 0)})
+		emit(c05Case{Op: 4, V: F64(v), Xs: c05TGrid(rng, v, it%5 == 0)})
+	}
+	// ---- TDist: dense deterministic sweep of V (every quarter up to 1000, then a log grid to 1e4)
+	//      on a short symmetric grid: PDF finite and >= 0, symmetric, CDF laws, PDF vs CDF by quadrature
+	sweepXs := []F64{-3, -1, -0.25, 0, 0.25, 1, 3}
+	for k := 1; k <= 4000; k++ {
+		emit(c05Case{Op: 4, V: F64(float64(k) / 4), Xs: sweepXs})
+	}
+	for j := 0; j <= 200; j++ {
+		v := 1000 * math.Pow(10, float64(j)/200)
+		if j == 200 {
+			v = 1e4
+		}
+		emit(c05Case{Op: 4, V: F64(v), Xs: sweepXs})
+	}
+	// ---- monotonicity scans (discontinuity hunt, hb_scan.go)
+	cells := 300000
+	emit(c05Case{Op: 6, Fn: 1, Mu: 0, Sigma: 1, Lo: -9, Hi: 9, N: cells})
+	scanVs := []float64{0.6, 3.7, 250, 343.3, 1000, 1e4}
+	if thorough {
+		cells = 1500000
+		scanVs = append(scanVs, 0.1, 1, 2, 30.5, 120, 201, 500.25, 2500, 5000.5)
+		for i := 0; i < 12; i++ {
+			scanVs = append(scanVs, math.Exp(math.Log(0.1)+rng.Float64()*math.Log(1e5)))
+		}
+		mu, sigma := c05MuSigma(rng, 1)
+		emit(c05Case{Op: 6, Fn: 1, Mu: F64(mu), Sigma: F64(sigma), Lo: F64(mu - 9*sigma), Hi: F64(mu + 9*sigma), N: cells})
+	}
+	for _, v := range scanVs {
+		emit(c05Case{Op: 6, Fn: 2, V: F64(v), Lo: -6, Hi: 6, N: cells})
 	}
 	// ---- DeltaDist
 	ys := []F64{0, F64(math.Copysign(0, -1)), 0.25, 0.5, 1, -0.5, 1.5, F64(-5e-324), F64(math.Nextafter(1, 2)), F64(math.Inf(1)), F64(math.Inf(-1)), F64(math.NaN())}
